@@ -6,8 +6,8 @@ for (const line of lines) {
   const c = JSON.parse(line).case;
   const LOG = [];
   const O = [], KC = new Map(), OC = new Map();
-  const K = ["0","1","2","3","10","4294967294","4294967295","-0","1e3","01","a","b","c","1.0",Symbol("s0"),Symbol("s1"),Symbol("s2"),Symbol("s3")];
-  const KN = [0,1,2,3,10,4294967294];
+  const K = ["0","1","2","3","10","4294967294","4294967295","-0","1e3","01","a","b","c","1.0","4294967296","10000000000","apply","abs","parse",Symbol("s0"),Symbol("s1"),Symbol("s2"),Symbol("s3")];
+  const KN = {0:0,1:1,2:2,3:3,4:10,5:4294967294,6:4294967295,14:4294967296,15:10000000000};
   K.forEach((k,i)=>KC.set(k,i));
   const FN = [];
   for (let id = 0; id < 8; id++) {
@@ -32,6 +32,9 @@ for (const line of lines) {
     case "string": return new String("");
     case "bound": return (function(){}).bind(null);
     case "arrow": return ()=>1;
+    case "math": return Object.defineProperty({}, "abs", {value: Math.abs, writable: true, enumerable: false, configurable: true});
+    case "json": return Object.defineProperty({}, "parse", {value: JSON.parse, writable: true, enumerable: false, configurable: true});
+    case "reflect": case "funcproto": return Object.defineProperty({}, "apply", {value: Reflect.apply, writable: true, enumerable: false, configurable: true});
     default: return {}; } }
   c.kinds.forEach((k,i)=>{ const o=MK(k); O.push(o); OC.set(o,i); });
   c.protos.forEach((p,i)=>{ if (i<O.length) Object.setPrototypeOf(O[i], (p<0||p>=i)?null:O[p]); });
@@ -43,7 +46,7 @@ for (const line of lines) {
   c.ops.forEach((op,idx)=>{
     if (op.o<0||op.o>=n) return;
     const o=O[op.o]; const k0=op.k||0; const f=op.f||0;
-    let key = K[k0]; if (k0<6 && f===1) key=KN[k0]; if (k0===0 && f===2) key=-0;
+    let key = K[k0]; if ((k0 in KN) && f===1) key=KN[k0]; if (k0===0 && f===2) key=-0;
     let r = (op.r===undefined||op.r<0||op.r>=n)?op.o:op.r;
     LOG.length=0; let term, res;
     try {
